@@ -247,6 +247,15 @@ func main() {
 		term := fmt.Sprintf("(CKeyLite %d %d %d %s %s %s)", i, v, c, lib.CoqBytes(tk), resBytes(ucls, upd), coqIDs(p.idsCls, p.ids))
 		run.Add(kind, term, jcase{Kind: "keylite", I: i, V: v, C: c, TK: tk}, fmt.Sprintf("key/%d/%d/%d/%x", i, v, c, tk))
 	}
+	addUpdTomb := func(i0, v0, i, v, c uint32, tk []byte) {
+		tomb := []byte(ctxFor(i0, v0).TombstoneKey(storage.TKey(tk)))
+		ucls, upd := update(tomb, i, v, c)
+		p := parseKey(exact(upd), false)
+		ist := ucls == "ok" && storage.Key(upd).IsTombstone()
+		term := fmt.Sprintf("(CUpdTomb %d %d %d %d %d %s %s %s %s %s)", i0, v0, i, v, c, lib.CoqBytes(tk), resBytes(ucls, upd), lib.CoqBool(ist),
+			coqIDs(p.idsCls, p.ids), resBytes(p.tkCls, p.tk))
+		run.Add("update-tombstone", term, jcase{Kind: "updtomb", I: i, V: v, C: c, TK: tk, N: int(i0), Seed: uint64(v0)}, fmt.Sprintf("updtomb/%d/%d/%d/%x", i, v, c, tk))
+	}
 	addRange := func(i uint32, cls uint8) {
 		ctx := ctxFor(i, 1)
 		a1, b1 := ctx.KeyRange()
@@ -819,6 +828,8 @@ func main() {
 			addKey("key", c.I, c.V, c.C, c.TK)
 		case "keylite":
 			addKeyLite("key-cube", c.I, c.V, c.C, c.TK)
+		case "updtomb":
+			addUpdTomb(uint32(c.N), uint32(c.Seed), c.I, c.V, c.C, c.TK)
 		case "range":
 			addRange(c.I, c.Cls)
 		case "parse":
@@ -887,6 +898,11 @@ func main() {
 			return uint32(rng.U64())
 		}
 		addKey("key-random", pick(), pick(), pick(), tk)
+	}
+	// a tombstone key stays a tombstone key when its ids are rewritten (push / copy remap ids this way)
+	for n, tk := range corpus {
+		addUpdTomb(grid[n%len(grid)], 1, grid[(n+3)%len(grid)], grid[(n+5)%len(grid)], grid[(n+1)%len(grid)], tk)
+		addUpdTomb(uint32(rng.U64()), uint32(rng.U64()), uint32(rng.U64()), uint32(rng.U64()), uint32(rng.U64()), tk)
 	}
 	for _, i := range grid {
 		for _, cls := range []uint8{0, 1, 177, 255} {
